@@ -36,7 +36,7 @@ BATCH = 40
 
 
 def units(tier, seed):
-    n = 500 if tier == "quick" else 20000
+    n = 1400 if tier == "quick" else 30000
     return [{"i": i, "seed": seed} for i in range(n)]
 
 
